@@ -24,7 +24,7 @@ def _(w, e):
 MUTATIONS = ["direction", "port_width", "port_arrayness", "cable_width", "move_other_instance", "move_other_port",
              "move_other_bit", "move_top_port_bit", "repoint", "property_value", "property_added", "property_dropped",
              "drop_instance", "add_instance", "drop_cable", "add_cable", "drop_port", "add_port", "drop_definition",
-             "add_definition", "add_library", "swap_pin_order", "move_other_wire"]
+             "add_definition", "add_library", "swap_pin_order", "move_other_wire", "repoint_twin"]
 
 
 class Mutator:
@@ -44,6 +44,8 @@ class Mutator:
         r = self.r
         order = list(kinds or MUTATIONS)
         r.shuffle(order)
+        if r.random() < 0.3:
+            order.insert(0, "repoint_twin")    # rarely applicable: tried first in some runs
         for k in order:
             evs = getattr(self, "m_" + k)()
             if evs:
@@ -205,6 +207,19 @@ class Mutator:
             for t in self.defs():
                 if t is not i.reference and tuple(len(p.pins) for p in t.ports) == sh and t.name != i.reference.name \
                         and t is not d:
+                    return [{"op": "set_reference", "on": self.hd(i), "x": self.hd(t)}]
+        return None
+
+    def m_repoint_twin(self):
+        """Re-point an instance to the definition of the SAME NAME in another library."""
+        c = self._insts()
+        self.r.shuffle(c)
+        for d, i in c:
+            ref = i.reference
+            sh = tuple(len(p.pins) for p in ref.ports)
+            for t in self.defs():
+                if t is not ref and t.name == ref.name and t.library is not ref.library and t is not d \
+                        and tuple(len(p.pins) for p in t.ports) == sh and self.hd(t):
                     return [{"op": "set_reference", "on": self.hd(i), "x": self.hd(t)}]
         return None
 
@@ -382,6 +397,9 @@ class C20(Prop):
             cfg["lsb"] = max(0, cfg["lsb"])
             cfg["connect_rate"] = r.choice([0.3, 0.6])
             cfg["copy"] = r.choice(["clone", "roundtrip"])
+            cfg["twin_defs"] = r.random() < 0.4
+            if cfg["twin_defs"]:
+                cfg["n_libs"] = max(2, cfg["n_libs"])
             cfg["undef_dir_rate"] = r.choice([0.0, 0.3]) if cfg["copy"] == "clone" else 0.0
         else:
             cfg["source"] = "example"
